@@ -14,7 +14,7 @@ func init() {
 	register(&PropDef{
 		ID: "C16",
 		Patterns: []string{"./clients/datasource", "./clients/resolution", "./guidedremediation/internal/strategy/common", "./guidedremediation/internal/strategy/override", "./guidedremediation/internal/strategy/relax",
-			"./guidedremediation/internal/remediation", "./extractor/filesystem", "./extractor/filesystem/internal"},
+			"./guidedremediation/internal/remediation", "./guidedremediation/result", "./extractor/filesystem", "./extractor/filesystem/internal"},
 		Explain: "Decided: D1 lockset — the frozen guarded-by table holds at every access: RequestCache.{cache,calls} and CombinedNativeClient.{maven,npm,pypi}RegistryClient are read and written only with the struct's mu held (must-hold dataflow over Lock/Unlock/defer Unlock; constructors exempt); the scan-progress fields of walkContext that the status goroutine reads are written only with statusMu held and read by that goroutine only with it held; " +
 			"D2 single flight is atomic — in RequestCache.Get the cache-miss test, the pending-call test and the registration of the new call happen in one critical section (no Unlock on any path between), the fetch function is called with the lock released, every path after it signals the waiters (wg.Done), re-examines/removes the pending entry, and stores into the cache only when the fetch succeeded; " +
 			"D3 spawn-site sharing — goroutines spawned in a loop for the same received result never receive a slice that append may have built on a shared backing array (the argument is a fresh literal or built on slices.Clone); " +
@@ -60,6 +60,8 @@ func runC16(p *Prog, r *Report) {
 	c16Lockset(p, r)
 	c16SingleFlight(p, r)
 	c16Patches(p, r)
+	c16ComparatorLoopReturnsDifferences(p, r, "D4-fanout")
+	c16SortsOwnCopy(p, r, "D3-spawn-sharing")
 	// schedule independence of the collector: which follow-up attempts are launched for a received
 	// result must not depend on the results received before it — the decisions that end the handling
 	// of a received result are the audited ones (table shared with C12)
